@@ -488,7 +488,7 @@ fn exhaustive(ctx: &mut Ctx, out: &mut Vec<String>) {
 
 pub fn gen(ctx: &mut Ctx) -> Vec<String> {
     let mut out: Vec<String> = WITNESSES.iter().map(|s| s.to_string()).collect();
-    let n = ctx.budget(700, 6000);
+    let n = ctx.budget(520, 5000);
     for i in 0..n {
         let kind = i % 8;                 // kinds 6,7 = random soup
         ctx.count(&format!("template_{}", kind.min(6)));
